@@ -68,6 +68,13 @@ type (
 
 var errReadTimeout = errors.New("read timeout")
 
+const (
+	// close code of graphql-transport-ws for a subscribe whose id is still in use
+	closeSubscriberAlreadyExists = 4409
+	// a close frame's payload is at most 125 bytes, two of which are the code
+	maxCloseReasonLength = 123
+)
+
 type WebsocketError struct {
 	Err error
 
@@ -378,6 +385,23 @@ func (c *wsConnection) closeOnCancel(ctx context.Context) {
 }
 
 func (c *wsConnection) subscribe(start time.Time, msg *message) {
+	// An id names one running operation. Starting a second operation under an id that is still
+	// active would overwrite its cancel function (the first operation could no longer be stopped
+	// or cancelled on close) and interleave two result streams, with two completions, under one
+	// id. graphql-transport-ws requires closing the socket with 4409 in that case.
+	c.mu.Lock()
+	_, duplicate := c.active[msg.id]
+	c.mu.Unlock()
+	if duplicate {
+		reason := fmt.Sprintf("Subscriber for %s already exists", msg.id)
+		if len(reason) > maxCloseReasonLength {
+			reason = reason[:maxCloseReasonLength]
+		}
+		c.sendConnectionError("%s", reason)
+		c.close(closeSubscriberAlreadyExists, reason)
+		return
+	}
+
 	ctx := graphql.StartOperationTrace(c.ctx)
 	var params *graphql.RawParams
 	if err := jsonDecodeParams(bytes.NewReader(msg.payload), &params); err != nil {
@@ -421,6 +445,8 @@ func (c *wsConnection) subscribe(start time.Time, msg *message) {
 	go func() {
 		ctx = withSubscriptionErrorContext(ctx)
 		defer func() {
+			// the frames that terminate the operation: error | complete | error complete
+			var last []*message
 			if r := recover(); r != nil {
 				err := rc.Recover(ctx, r)
 				var gqlerr *gqlerror.Error
@@ -430,14 +456,22 @@ func (c *wsConnection) subscribe(start time.Time, msg *message) {
 						gqlerr.Message = err.Error()
 					}
 				}
-				c.sendError(msg.id, gqlerr)
-			}
-			if errs := getSubscriptionError(ctx); len(errs) != 0 {
-				c.sendError(msg.id, errs...)
+				// one error frame carries the recovered error and any subscription errors
+				// (a second error frame for the same id is not a valid stream)
+				errs := append([]*gqlerror.Error{gqlerr}, getSubscriptionError(ctx)...)
+				last = append(last, errorMessage(msg.id, errs...), &message{id: msg.id, t: completeMessageType})
+			} else if errs := getSubscriptionError(ctx); len(errs) != 0 {
+				last = append(last, errorMessage(msg.id, errs...))
 			} else {
-				c.complete(msg.id)
+				last = append(last, &message{id: msg.id, t: completeMessageType})
 			}
+			// Terminating the stream and releasing the id are one critical section: a client that
+			// has seen the termination may reuse the id at once, and as long as the id is
+			// registered a second start for it is refused.
 			c.mu.Lock()
+			for _, m := range last {
+				c.handlePossibleError(c.me.Send(m), false)
+			}
 			delete(c.active, msg.id)
 			c.mu.Unlock()
 			cancel()
@@ -473,7 +507,7 @@ func (c *wsConnection) complete(id string) {
 	c.write(&message{id: id, t: completeMessageType})
 }
 
-func (c *wsConnection) sendError(id string, errors ...*gqlerror.Error) {
+func errorMessage(id string, errors ...*gqlerror.Error) *message {
 	errs := make([]error, len(errors))
 	for i, err := range errors {
 		errs[i] = err
@@ -482,7 +516,11 @@ func (c *wsConnection) sendError(id string, errors ...*gqlerror.Error) {
 	if err != nil {
 		panic(err)
 	}
-	c.write(&message{t: errorMessageType, id: id, payload: b})
+	return &message{t: errorMessageType, id: id, payload: b}
+}
+
+func (c *wsConnection) sendError(id string, errors ...*gqlerror.Error) {
+	c.write(errorMessage(id, errors...))
 }
 
 func (c *wsConnection) sendConnectionError(format string, args ...any) {
